@@ -494,7 +494,7 @@ func runRound(sp spec, round int, res *result, ops *counter) {
 	}
 	// goroutines with bleve frames must be gone
 	var left []string
-	for i := 0; i < 100; i++ {
+	for i := 0; i < 1000; i++ {
 		left = bleveGoroutines()
 		if len(left) == 0 {
 			break
@@ -502,7 +502,7 @@ func runRound(sp spec, round int, res *result, ops *counter) {
 		time.Sleep(10 * time.Millisecond)
 	}
 	if len(left) > 0 {
-		prob("goroutine-leak-after-close", fmt.Sprintf("%d goroutines with bleve frames are still alive 1 s after Close returned; first:\n%s", len(left), left[0]))
+		prob("goroutine-leak-after-close", fmt.Sprintf("%d goroutines with bleve frames are still alive 10 s after Close returned; first:\n%s", len(left), left[0]))
 		for _, g := range left {
 			if m := goroutineHeader.FindStringSubmatch(g); m != nil {
 				alreadyReported[m[1]] = true
